@@ -259,6 +259,27 @@ BadArity(fv, tgt, extra) ==
 (* ---- one opcode ---------------------------------------------------------------- *)
 Need(m, f, k, site) == Depth(f) < k      \* operand underflow => pop() unreachable!()
 
+(* operands of BuildConstraint *)
+RECURSIVE ArmOperands(_), BuildArms(_, _)
+ArmOperands(kinds) == IF kinds = << >> THEN 0 ELSE (IF Head(kinds) = "range" THEN 2 ELSE 1) + ArmOperands(Tail(kinds))
+BuildArms(kinds, vals) ==      \* -> [k |-> "ok", arms] / [k |-> "bad"] / [k |-> "unm"]
+  IF kinds = << >> THEN [k |-> "ok", arms |-> << >>]
+  ELSE IF Head(kinds) = "range"
+    THEN LET lo == vals[1]
+             hi == vals[2]
+             rest == BuildArms(Tail(kinds), SubSeq(vals, 3, Len(vals)))
+         IN IF lo.t = "float" \/ hi.t = "float" THEN [k |-> "unm"]
+            ELSE IF lo.t \notin {"int", "null"} \/ hi.t \notin {"int", "null"} \/ (lo.t = "null" /\ hi.t = "null")
+                   THEN [k |-> "bad"]
+            ELSE IF rest.k # "ok" THEN rest
+            ELSE [k |-> "ok", arms |-> << [t |-> "arm", a |-> "irange", lo |-> IF lo.t = "int" THEN << lo.i >> ELSE << >>,
+                                           hi |-> IF hi.t = "int" THEN << hi.i >> ELSE << >>] >> \o rest.arms]
+    ELSE LET x == vals[1]
+             rest == BuildArms(Tail(kinds), SubSeq(vals, 2, Len(vals)))
+         IN IF ~IsCPrim(x) THEN [k |-> "unm"]
+            ELSE IF rest.k # "ok" THEN rest
+            ELSE [k |-> "ok", arms |-> << [t |-> "arm", a |-> "exact", v |-> x] >> \o rest.arms]
+
 ExecOp(m, f, o) ==   \* f: top frame with ptr already advanced to o
   LET p == o.p
       next(f2) == SetTop(m, f2)
@@ -326,6 +347,25 @@ ExecOp(m, f, o) ==   \* f: top frame with ptr already advanced to o
          ELSE LET a == Peek(f, 1)
               IN IF a.v.t = "bool" THEN next(Push(Drop(f, 1), BoolV(~a.v.b), a.p))
                  ELSE Fail(SetTop(m, Drop(f, 1)), a.p)
+    [] o.op = "BuildConstraint" ->          \* op_build_constraint: operands in push order, two per range, one per exact arm
+         LET n == ArmOperands(o.arms)
+         IN IF Depth(f) < n THEN under
+            ELSE LET vals == [j \in 1..n |-> f.stk[Len(f.stk) - n + j].v]
+                     f2 == Drop(f, n)
+                     b == BuildArms(o.arms, vals)
+                 IN IF b.k = "unm" THEN Unmod(m)
+                    ELSE IF b.k = "bad" THEN Fail(SetTop(m, f2), p)     \* "Range constraint bounds must be numeric"
+                    ELSE next(Push(f2, ConV(b.arms), p))
+    [] o.op = "CheckConstraint" ->          \* op_check_constraint: pops the constraint, peeks at the value
+         IF Depth(f) < 1 THEN under
+         ELSE LET c == Peek(f, 1).v
+                  f2 == Drop(f, 1)
+              IN IF Depth(f2) < 1 THEN Fail(SetTop(m, f2), p)           \* "No value on stack for constraint check"
+                 ELSE LET v == Peek(f2, 1)
+                      IN IF c.t # "con" THEN next(f2)                   \* an example value: checked statically only
+                         ELSE IF ~IsCPrim(v.v) THEN Unmod(m)
+                         ELSE IF \E j \in 1..Len(c.arms) : ArmHolds(v.v, c.arms[j]) THEN next(f2)
+                         ELSE Fail(SetTop(m, f2), v.p)
     [] o.op \in {"Bind", "BindOver"} ->
          IF Depth(f) < 2 THEN under
          ELSE LET v == Peek(f, 1)
